@@ -52,7 +52,25 @@ pub fn edge_scalar(r: &mut ChaCha20Rng) -> Scalar {
 /// message tuples: independent edge entries, or random entries with a random subset zeroed
 /// (zero in the middle / zero tail patterns), or all-edge constants
 pub fn edge_vec(r: &mut ChaCha20Rng, n: usize) -> Vec<Scalar> {
-    match r.gen_range(0..4) {
+    match r.gen_range(0..7) {
+        4 => {
+            // entries that cancel: the coordinates sum to zero mod q although they are not all zero
+            if n < 2 { return vec![edge_scalar(r); n]; }
+            let mut v: Vec<Scalar> = (0..n).map(|_| if r.gen_range(0..3) == 0 { Scalar::zero() } else { edge_scalar(r) }).collect();
+            let k = r.gen_range(0..n);
+            v[k] = Scalar::zero();
+            let s: Scalar = v.iter().fold(Scalar::zero(), |a, b| a + b);
+            v[k] = -s;
+            if v.iter().all(|x| *x == Scalar::zero()) { v[0] = Scalar::one(); v[n - 1] = -Scalar::one(); }
+            v
+        }
+        5 => {
+            // repeated entries (all equal, or two equal positions)
+            let x = edge_scalar(r);
+            let mut v: Vec<Scalar> = (0..n).map(|_| if r.gen_range(0..2) == 0 { x } else { edge_scalar(r) }).collect();
+            if n >= 2 { let (i, j) = (r.gen_range(0..n), r.gen_range(0..n)); v[i] = x; v[j] = x; }
+            v
+        }
         0 => {
             let mut v: Vec<Scalar> = (0..n).map(|_| rand_scalar(r)).collect();
             for x in v.iter_mut() {
